@@ -238,10 +238,19 @@ def oracle_op4(case, R):
     if any(k >= 2 for k in nstr):
         R.label("multi-string")
 
+    # input class isolated in part "op4_sparse_f32": every stored string of a single
+    # precision matrix (4-byte reals) goes through the numpy.fromfile path
+    f32class = [binary and not enc.get("bit64") and bool(m["mtype"] & 1) and len(m["columns"]) > 0
+                and all(len(v) * (2 if m["mtype"] > 2 else 1) >= 3000 for _, ss in m["columns"] for _, v in ss)
+                for m in mats]
+
     def same(got, ref, tag, k):
         if sp.issparse(got):
             ok_shape = got.shape == ref.shape
             got = np.asarray(got.toarray())
+            if f32class[k] and not case.get("isolate_f32") and got.dtype != ref.dtype:
+                R.label("sparse_f32_class_tolerated")
+                got = got.astype(ref.dtype)
             if got.dtype != ref.dtype and not np.any(ref):
                 # no stored entry: a sparse result cannot carry the complex dtype
                 got = got.astype(ref.dtype)
@@ -1040,6 +1049,21 @@ def enum_nbytes(shard, nshards, tier):
 # parts "op4_cutover" / "op2_cutover": deterministic cases at the 3000-value switch
 # =========================================================================
 
+def enum_op4_sparse_f32(shard, nshards, tier):
+    cases = []
+    for e in "<>":
+        for layout in ("dense", "bigmat", "nonbigmat"):
+            for mtype in (1, 3):
+                n = 3000 if mtype == 1 else 1500
+                cases.append({"enc": {"binary": True, "endian": e, "bit64": False}, "subset": 0, "isolate_f32": True,
+                              "mats": [{"name": "S", "mtype": mtype, "layout": layout, "form": 2, "seed": 11,
+                                        "vals": "int", "pmode": "natural", "trim": True, "pattern": "dense",
+                                        "r": n, "c": 1}]})
+    for i, c in enumerate(cases):
+        if i % nshards == shard:
+            yield c
+
+
 def _cut_lens(mtype):
     return [1499, 1500, 1501] if mtype > 2 else [2999, 3000, 3001]
 
@@ -1097,6 +1121,8 @@ PARTS = [
     Part("op2", oracle_op2, strategy=op2_files, quick=(16, 45), thorough=(16, 600)),
     Part("op4_cutover", oracle_op4, enum=enum_op4_cutover, quick=(16, None), thorough=(16, None), exhaustive=True),
     Part("op2_cutover", oracle_op2, enum=enum_op2_cutover, quick=(16, None), thorough=(16, None), exhaustive=True),
+    Part("op4_sparse_f32", oracle_op4, enum=enum_op4_sparse_f32, quick=(4, None), thorough=(4, None),
+         exhaustive=True),
     Part("op2_uint64", oracle_op2, enum=enum_uint64, quick=(4, None), thorough=(4, None), exhaustive=True),
     Part("op2_nbytes", oracle_nbytes, enum=enum_nbytes, quick=(4, None), thorough=(4, None), exhaustive=True),
 ]
